@@ -618,6 +618,14 @@ impl RawAutomaton {
         // forward order would miss some transitions when some initial states
         // happen to be final as well.
         for automaton in automata.iter().rev() {
+            // An automaton whose initial state is final and has no successors
+            // recognises exactly the empty word: concatenating it changes nothing
+            // (the redirection below would lose its final initial state).
+            if automaton.nothing_after_final()
+                && automaton.final_states.contains(&automaton.initial_state)
+            {
+                continue;
+            }
             let nb_states = concat_automaton.transitions.len();
             let (mut transitions, _) = RawAutomaton::filter_map_transitions(
                 &automaton.transitions,
